@@ -228,7 +228,19 @@ func rwApply(w *rwWorld, o rwOp) {
 				w.closeWindow()
 			}
 			if w.liveT(j) == nil {
-				w.open("T", j)
+				if o.How == "openFails" && len(w.nodes) == 0 {
+					// the target cluster opens its stream but the proxy cannot open the reverse stream towards it: the
+					// connection ends at once by itself; the target connects again later
+					inc := w.openOpt("T", j, false, true)
+					vfQuiesce()
+					time.Sleep(time.Second)
+					vfQuiesce()
+					inc.ended = true
+					w.targets[j].connected = false
+					w.classes["target_connection_whose_reverse_stream_could_not_be_opened"]++
+				} else {
+					w.open("T", j)
+				}
 			}
 		} else {
 			i := o.I % len(w.sources)
@@ -641,7 +653,7 @@ func rwGenCase(t *rapid.T, faults bool) rwCase {
 		case x < 82:
 			c.Ops = append(c.Ops, rwOp{K: "unstall", Side: rapid.SampledFrom([]string{"T", "T", "S"}).Draw(t, "us"), I: rapid.IntRange(0, 5).Draw(t, "ui")})
 		case x < 92:
-			c.Ops = append(c.Ops, rwOp{K: "advance", N: rapid.SampledFrom([]int{1, 10, 100, 1000, 1000, 3000}).Draw(t, "ms")})
+			c.Ops = append(c.Ops, rwOp{K: "advance", N: rapid.SampledFrom([]int{1, 10, 100, 1000, 1000, 3000, 3000, 200000}).Draw(t, "ms")})
 		case x < 96:
 			c.Ops = append(c.Ops, rwOp{K: "connect", Side: "T", I: rapid.IntRange(0, c.NT-1).Draw(t, "ct")})
 		default:
@@ -712,7 +724,11 @@ func rwGenFault(t *rapid.T, c rwCase) rwOp {
 		if side == "T" {
 			n = c.NT
 		}
-		return rwOp{K: "connect", Side: side, I: rapid.IntRange(0, n-1).Draw(t, "ri")}
+		op := rwOp{K: "connect", Side: side, I: rapid.IntRange(0, n-1).Draw(t, "ri")}
+		if side == "T" && c.Nodes <= 1 && rapid.IntRange(0, 3).Draw(t, "openFails") == 0 {
+			op.How = "openFails"
+		}
+		return op
 	}
 	side := rapid.SampledFrom([]string{"S", "T", "T"}).Draw(t, "bside")
 	n := c.NS
